@@ -43,7 +43,7 @@ func checkC20(p *load.Program, r *kit.Report) {
 		{Field: listF, Mutex: "lock"}, {Field: lookupF, Mutex: "lock"}, {Field: sp("lastSaved"), Mutex: "lock"},
 		{Field: pf("Score"), Mutex: "lock", ByRecv: true}, {Field: pf("LastTime"), Mutex: "lock", ByRecv: true},
 	}, nil, func(f *ssa.Function, a fieldAccess) string {
-		if f.Name() == "LoadSeeds" {
+		if fname(f) == "LoadSeeds" {
 			return "LoadSeeds is outside the property's operation alphabet and runs before any thread is started"
 		}
 		return ""
@@ -105,7 +105,7 @@ func checkC20(p *load.Program, r *kit.Report) {
 					bad = "an iteration appends to list without updating lookup"
 				}
 			}
-			if f.Name() == "Add" && bad == "" {
+			if fname(f) == "Add" && bad == "" {
 				miss := mapLookupGuards(f, lookupF)
 				if ok, _ := kit.DominatedByEdges(f, w.Instr, edgesOf(miss, false), nil, p.Pos); !ok || len(miss) == 0 {
 					bad = "Add appends without testing that the address is not yet in lookup: duplicates"
@@ -149,7 +149,7 @@ func checkC20(p *load.Program, r *kit.Report) {
 		r.Check(bad == "", "SCORE-SHAPE", "UpdateScore/sum", posOf(p, f.Blocks[0].Instrs[0]), "lookup[address].Score += delta", bad)
 	}
 	if f := fn(p, r, "SCORE-SHAPE", R, "StoragePeerRepository.Get"); f != nil {
-		minP, maxP := paramNamed(f, "minScore"), paramNamed(f, "maxScore")
+		minP, maxP := prmAt(f, 2), prmAt(f, 3)
 		var keep ssa.Instruction
 		kit.AllInstrs(f, func(in ssa.Instruction) {
 			if c, ok := in.(*ssa.Call); ok && kit.CallID(c) == "builtin.append" && len(cycleOf(c.Block())) > 0 {
@@ -361,7 +361,7 @@ func checkC20(p *load.Program, r *kit.Report) {
 			// every mutator must set the flag
 			state := map[*types.Var]bool{listF: true, lookupF: true, pf("Score"): true, pf("LastTime"): true, pf("Address"): true}
 			for _, m := range methods {
-				if m == f || m.Name() == "Load" || m.Name() == "Clear" || m.Name() == "NewPeerRepository" {
+				if m == f || fname(m) == "Load" || fname(m) == "Clear" || fname(m) == "NewPeerRepository" {
 					continue
 				}
 				mut, sets := false, false
